@@ -91,8 +91,45 @@ func (w *upperWriter) Write(p []byte) (int, error) {
 	return len(p), nil
 }
 
+type holder struct {
+	S fmt.Stringer
+	R io.Reader
+}
+
 func job(i int) {
-	switch hook.Choose(13) {
+	switch hook.Choose(14) {
+	case 13:
+		// values of program types stored through interface-typed places of every kind,
+		// then used by compiled code
+		var xs []fmt.Stringer
+		for k := 0; k < 3; k++ {
+			xs = append(xs, temp{k + i})
+		}
+		xs = append(xs, temp{70}, temp{71 + i})
+		m := map[string]fmt.Stringer{}
+		m["a"] = temp{30 + i}
+		var arr [2]error
+		arr[1] = &myErr{i}
+		var h holder
+		h.S = temp{50 + i}
+		h.R = &countReader{max: 3 + i}
+		p := new(fmt.Stringer)
+		*p = temp{60 + i}
+		var a, b fmt.Stringer
+		t2 := temp{2 + i}
+		a, b = temp{1}, t2
+		var c fmt.Stringer
+		c, _ = t2, i
+		errs := make([]error, 2)
+		errs[0], a = &myErr{9}, b
+		out := ""
+		for _, x := range xs {
+			hook.Y()
+			out += hook.SprintStringer(x) + ","
+		}
+		data, err := io.ReadAll(h.R)
+		hook.Ev("containers", i, out, hook.SprintStringer(m["a"]), hook.SprintError(arr[1]), hook.SprintStringer(h.S),
+			hook.SprintStringer(*p), hook.SprintStringer(a), hook.SprintStringer(b), hook.SprintStringer(c), hook.SprintError(errs[0]), string(data), err == nil)
 	case 7:
 		s := strings.FieldsFunc("a1b22c333d", func(r rune) bool {
 			hook.Y()
